@@ -331,6 +331,19 @@ func GetOutputNodes(root *html.Node) []*html.Node {
 	return outputNodes
 }
 
+// WithoutTemplateContent returns the nodes that are not inside a <template> element. The
+// content of a template is inert: it is not part of the page (the parser keeps it as
+// ordinary children of the element, so every query over the tree finds it).
+func WithoutTemplateContent(nodes []*html.Node) []*html.Node {
+	result := make([]*html.Node, 0, len(nodes))
+	for _, node := range nodes {
+		if !HasAncestor(node, "template") {
+			result = append(result, node)
+		}
+	}
+	return result
+}
+
 // GetParentNodes returns list of all the parents of this node starting with the node itself.
 func GetParentNodes(node *html.Node) []*html.Node {
 	result := []*html.Node{}
